@@ -72,6 +72,18 @@ Proof.
 Qed.
 Print Assumptions C04_prefix_closed.
 
+(* New itself is an exit path: when reportWinsize fails after start-up, New closes what it started before it
+   returns the error, and the terminal is back where it was (for every capability set; no hang) *)
+Theorem C04_failed_new_restores :
+  forall (o : opts) (det : flags) (d : data) (other kitty0 appid0 : list Z) (cstyle0 : Z) (honours : bool),
+  let fl := apply_quirks o (with_nomouse (o_nomouse o) det) in
+  (f_osc176 fl = true -> d_appid d = appid0) ->
+  sem_toks (s_out (failed_new o det d)) (fresh_term other kitty0 cstyle0 appid0 honours)
+  = fresh_term other kitty0 (d_ustyle d) appid0 honours
+  /\ s_hung (failed_new o det d) = false.
+Proof. intros o det d other kitty0 appid0 cstyle0 honours fl H. rewrite failed_new_factor. apply failed_from_restores. exact H. Qed.
+Print Assumptions C04_failed_new_restores.
+
 (* a second Close is harmless: it changes nothing and writes nothing *)
 Theorem C04_close_idempotent : forall (o : opts) (x : sst), x_closed x = true -> run_op o OpClose x = x.
 Proof. exact close_idempotent. Qed.
